@@ -312,9 +312,9 @@ def worker(ctx, job):
 
 
 def run(ctx):
-    n = ctx.pick(50, 1200)
-    jobs = [{"n": n, "budget": ctx.pick(25, 330)} for _ in range(16)]
-    ctx.shard(jobs, timeout=ctx.pick(60, 400))
+    n = ctx.pick(50, 4000)
+    jobs = [{"n": n, "budget": ctx.pick(25, 900)} for _ in range(16)]
+    ctx.shard(jobs, timeout=ctx.pick(60, 1500))
     total = 16 * n
     ctx.floor("distinct_nontrivial", total // 3)
     ctx.floor("transport:loopback", total // 15)
